@@ -1,6 +1,6 @@
 """C10 — derived codecs are forward and backward compatible as documented."""
 import derivegen as dg
-from derivegen import prepare, route
+from derivegen import prepare, route, oracle
 
 RULE = ("DCOMPAT <sidW> <schemaW> <sidR> <schemaR> <def> <value> <expected>: pairs (old, new) of schema versions produced by random sequences of the "
         "documented-compatible edits (add / drop an optional field at a new or gap index in array or map encoding; add a variant to an enum that "
